@@ -17,9 +17,13 @@
        "one number per file, one file per number" is required among files with a positive count only.
      * forget is addressed to a number; it is charged to every valid file carrying that number (exactly
        one, if the server is right).
-     * file-handle mode pins nothing on the host: once a referenced file has lost its last name there,
-       A says nothing any more about its number (S.ghost) -- the property text exempts it
-       ("or (when inodes are tracked by open descriptors) unlinked").
+     * file-handle mode pins nothing on the host: once a referenced file has lost its last name there
+       (S.ghost, a set of FILES) requests on its number need not behave as on the host any more -- the
+       property text exempts it ("or (when inodes are tracked by open descriptors) unlinked"). Its count
+       is still held and still has to be released, and its number still denotes no OTHER file: a new host
+       file delivered under the number of a ghost is a violation -- except with use_host_ino, where the
+       number is a function of the host inode number and a new file that re-uses the host inode number of
+       the vanished one inherits it; A then says nothing more about that number (S.taint).
      * destroy ends the session: counts, numbers and handles start over.
      * resources: only quiescent states are constrained, componentwise "no more than" the values logged
        for the freshly started server of the same configuration in the same process (S.base).
@@ -54,9 +58,10 @@ Init(c) ==
     at    |-> <<>>,          \* number id -> files that were ever delivered under it (index of num)
     alive |-> {},            \* files that have a name on the host now
     nl    |-> {},            \* their link counts: set of <<file id, nlink>>
-    ghost |-> {},            \* numbers A says nothing about (file-handle mode, unlinked while referenced)
-    glive |-> {},            \* ghost numbers whose inode object was still there at the last probe (for the census)
+    ghost |-> {},            \* files that lost their last host name while referenced, file-handle mode
+    taint |-> {},            \* numbers A says nothing about any more (use_host_ino take-over of a ghost's number)
     hnd   |-> <<>>,          \* live handles: handle id -> number id
+    hdir  |-> {},            \* those opened by opendir (the host itself answers EBADF to a write on a directory descriptor)
     base  |-> c.base,
     susp  |-> "-",           \* operation blamed for a surplus found at the next quiescent point
     rank  |-> 0,
@@ -82,15 +87,19 @@ Tracked(S) == S.cfg.via # "pseudo"      \* pseudo directories have no lookup cou
 (* ---------------------------------------- Refs (C08) ---------------------------------------- *)
 \* an entry for host file f carrying number k was delivered to the client by operation op
 Entry(S, op, f, k) ==
-  LET bad0 == (IF f = 0 THEN {Sig3("C08", op, "entry-for-no-host-file")} ELSE {})
-         \cup (IF f # 0 /\ f \in DOMAIN S.num /\ S.num[f] # k /\ k \notin S.ghost /\ S.num[f] \notin S.ghost
+  LET others == FilesAt(S, k) \ {f}
+      \* use_host_ino: a new file that re-uses the host inode number of vanished files inherits their number
+      takeover == S.cfg.hostino /\ others # {} /\ others \subseteq S.ghost /\ f \notin S.ghost
+      bad0 == (IF f = 0 THEN {Sig3("C08", op, "entry-for-no-host-file")} ELSE {})
+         \cup (IF f # 0 /\ f \in DOMAIN S.num /\ S.num[f] # k /\ k \notin S.taint /\ S.num[f] \notin S.taint
                THEN {Sig3("C08", op, "number-changed")} ELSE {})
-         \cup (IF f # 0 /\ k \notin S.ghost /\ FilesAt(S, k) \ {f} # {}
+         \cup (IF f # 0 /\ k \notin S.taint /\ others # {} /\ ~takeover
                THEN {Sig3("C08", op, "number-shared")} ELSE {})
       bad == {x \o Det("#file " \o ToString(f) \o " number " \o ToString(k)) : x \in bad0}
   IN IF ~Tracked(S) THEN S
      ELSE IF f = 0 \/ f = RootF THEN [S EXCEPT !.viol = @ \cup bad]
-     ELSE [S EXCEPT !.refs = Upd(@, f, Get(@, f, 0) + 1), !.num = Upd(@, f, k), !.at = Upd(@, k, Get(@, k, {}) \cup {f}), !.viol = @ \cup bad]
+     ELSE [S EXCEPT !.refs = Upd(@, f, Get(@, f, 0) + 1), !.num = Upd(@, f, k), !.at = Upd(@, k, Get(@, k, {}) \cup {f}), !.viol = @ \cup bad,
+                    !.taint = IF takeover THEN @ \cup {k} ELSE @]
 
 \* forget(k, c): saturating, root exempt
 Forget(S, k, c) ==
@@ -106,7 +115,7 @@ ForgetAll(S, items) == IF items = <<>> THEN S ELSE ForgetAll(Forget(S, Head(item
 \* the stat walk of the host tree: rows <<file id, nlink>>
 HostSet(S, rows) ==
   LET al == {r[1] : r \in Range(rows)}
-      g  == IF S.cfg.fh THEN {S.num[f] : f \in {x \in DOMAIN S.num : Get(S.refs, x, 0) > 0 /\ x \notin al}} ELSE {}
+      g  == IF S.cfg.fh THEN {x \in DOMAIN S.num : Get(S.refs, x, 0) > 0 /\ x \notin al} ELSE {}
   IN [S EXCEPT !.alive = al, !.nl = Range(rows), !.ghost = @ \cup g]
 
 \* getattr on number k after operation S.lastop: row = <<k, status, refcount | -1, file id of the attributes | -1, nlink>>
@@ -121,16 +130,19 @@ ProbeRow(S, row) ==
       want == IF fs \ {RootF} = {} THEN -1 ELSE Sum(fs \ {RootF})
       rdp == op \in {"readdir", "readdirplus"}
       refsig == {Sig3("C08", op, "refcount")} \cup (IF rdp THEN {Sig3("C16", S.cfg.via, IF op = "readdirplus" THEN "plus-refs" ELSE "plain-refs")} ELSE {})
-      skip == k \in S.ghost \/ ~Tracked(S) \/ ~S.up
+      skip == k \in S.taint \/ ~Tracked(S) \/ ~S.up
+      live == fs \ S.ghost            \* files under this number that still exist on the host
       \* a number seen for the first time whose count is too high while an already reported surplus inode object is
       \* unexplained: that object has become visible, it is not reported a second time
       absorb == k \notin S.seen /\ S.slack > 0 /\ want >= 1 /\ rc > want
       bad0 ==
         IF skip THEN {}
         ELSE IF k = ROOT THEN (IF st # "OK" THEN {Sig3("C08", op, "root-unresolvable")} ELSE {})
+        ELSE IF fs # {} /\ live = {} THEN       \* only vanished files: the count is still held, the answer is free
+               (IF rc # want /\ ~absorb THEN refsig ELSE {})
         ELSE IF fs # {} THEN
                (IF st # "OK" THEN {Sig3("C08", op, "valid-number-fails")} ELSE {})
-          \cup (IF st = "OK" /\ af # -1 /\ af \notin fs THEN {Sig3("C08", op, "wrong-file")} ELSE {})
+          \cup (IF st = "OK" /\ af # -1 /\ af \notin live THEN {Sig3("C08", op, "wrong-file")} ELSE {})
           \cup (IF st = "OK" /\ af \in fs /\ af \in S.alive /\ <<af, nlk>> \notin S.nl THEN {Sig3("C08", op, "wrong-attr")} ELSE {})
           \cup (IF rc # want /\ st = "OK" /\ ~absorb THEN refsig ELSE {})
         ELSE IF st # "EBADF" THEN {Sig3("C08", op, "stale-number-resolves")} \cup (IF rdp THEN refsig ELSE {})
@@ -141,9 +153,8 @@ ProbeRow(S, row) ==
              ELSE IF af > 0 /\ af # RootF THEN af
              ELSE IF owners # {} THEN CHOOSE f \in owners : TRUE ELSE 0
       resync == ~skip /\ k # ROOT /\ rc # want
-  IN IF k \in S.ghost THEN [S EXCEPT !.seen = @ \cup {k}, !.glive = IF rc # -1 THEN @ \cup {k} ELSE @ \ {k}]
-     ELSE IF ~resync THEN [S EXCEPT !.viol = @ \cup bad, !.seen = @ \cup {k}]
-     ELSE IF tgt = 0 THEN [S EXCEPT !.viol = @ \cup bad, !.ghost = @ \cup {k}, !.seen = @ \cup {k}]
+  IN IF ~resync THEN [S EXCEPT !.viol = @ \cup bad, !.seen = @ \cup {k}]
+     ELSE IF tgt = 0 THEN [S EXCEPT !.viol = @ \cup bad, !.taint = @ \cup {k}, !.seen = @ \cup {k}]
      ELSE [S EXCEPT !.viol = @ \cup bad, !.seen = @ \cup {k},
                     !.refs = [f \in DOMAIN @ \cup {tgt} |-> IF f = tgt THEN Max(rc, 0) ELSE IF f \in owners THEN 0 ELSE @[f]],
                     !.num = Upd(@, tgt, k), !.at = Upd(@, k, Get(@, k, {}) \cup {tgt})]
@@ -164,7 +175,7 @@ Noted(S, op, status, failat) ==
 \* open / opendir / create returned handle h (0 = none) for number k
 OpenH(S, op, k, h) ==
   IF h = 0 THEN S
-  ELSE [S EXCEPT !.hnd = Upd(@, h, k),
+  ELSE [S EXCEPT !.hnd = Upd(@, h, k), !.hdir = IF op = "opendir" THEN @ \cup {h} ELSE @ \ {h},
                  !.viol = @ \cup (IF h \in DOMAIN S.hnd THEN {Sig4("C15", S.cfg.tag, op, "handle-not-distinct")} ELSE {})]
 
 \* a request carrying (k, h) answered st
@@ -172,7 +183,17 @@ UseH(S, op, k, h, st) ==
   IF ~HandleMode(S, op) THEN S
   ELSE LET live == h \in DOMAIN S.hnd /\ S.hnd[h] = k
            bad == (IF ~live /\ st = "OK" THEN {Sig4("C15", S.cfg.tag, op, IF h \in DOMAIN S.hnd THEN "handle-accepted-with-other-inode" ELSE "released-handle-accepted")} ELSE {})
-             \cup (IF live /\ st = "EBADF" /\ Valid(S, k) /\ k \notin S.ghost THEN {Sig4("C15", S.cfg.tag, op, "live-handle-refused")} ELSE {})
+             \cup (IF live /\ st = "EBADF" /\ FilesAt(S, k) \ S.ghost # {} /\ k \notin S.taint /\ ~(op = "write" /\ h \in S.hdir)
+                   THEN {Sig4("C15", S.cfg.tag, op, "live-handle-refused")} ELSE {})
+       IN [S EXCEPT !.viol = @ \cup bad]
+
+\* fstat through handle h of number k answered st with the attributes of host file af (-1: cannot tell): a handle
+\* keeps denoting the file it was opened on until it is released
+HandleFile(S, op, k, h, st, af) ==
+  IF ~HandleMode(S, op) THEN S
+  ELSE LET live == h \in DOMAIN S.hnd /\ S.hnd[h] = k
+           bad == IF live /\ st = "OK" /\ af # -1 /\ k \notin S.taint /\ af \notin FilesAt(S, k) /\ Valid(S, k)
+                  THEN {Sig4("C15", S.cfg.tag, op, "handle-denotes-other-file")} ELSE {}
        IN [S EXCEPT !.viol = @ \cup bad]
 
 ReleaseH(S, op, k, h, st) ==
@@ -184,7 +205,7 @@ ReleaseH(S, op, k, h, st) ==
                     !.hnd = IF st = "OK" /\ h \in DOMAIN @ THEN [x \in DOMAIN @ \ {h} |-> @[x]] ELSE @]
 
 Destroy(S) ==
-  [S EXCEPT !.up = FALSE, !.susp = "destroy", !.rank = 2, !.leakop = "-", !.hnd = <<>>, !.refs = <<>>, !.num = <<>>, !.at = <<>>, !.ghost = {}, !.glive = {}, !.slack = 0, !.seen = {}, !.succ = <<>>, !.nameoff = <<>>, !.offname = <<>>]
+  [S EXCEPT !.up = FALSE, !.susp = "destroy", !.rank = 2, !.leakop = "-", !.hnd = <<>>, !.hdir = {}, !.refs = <<>>, !.num = <<>>, !.at = <<>>, !.ghost = {}, !.taint = {}, !.slack = 0, !.seen = {}, !.succ = <<>>, !.nameoff = <<>>, !.offname = <<>>]
 
 \* init answered st
 Inited(S, st) == IF st = "OK" THEN [S EXCEPT !.up = TRUE] ELSE S
@@ -199,8 +220,8 @@ ResCheck(S, r) ==
   LET q == Quiescent(S)
       over == {x \in {"fds", "inodes", "handles", "cookies"} : r[x] > S.base[x]}
       \* "its resources are released": live inode objects = root + numbers with a positive count (S.slack: already reported)
-      delta == r.inodes - (1 + Cardinality(ValidNums(S) \ S.ghost) + Cardinality(S.glive \cap S.ghost))
-      chk08 == Tracked(S)
+      delta == r.inodes - (1 + Cardinality(ValidNums(S)))
+      chk08 == Tracked(S) /\ S.taint = {}
       newleak == chk08 /\ delta > S.slack
       lk == IF newleak /\ S.leakop = "-" THEN S.lastop ELSE S.leakop
       b15 == IF q THEN {Sig4("C15", S.cfg.tag, BlameLabel(lk, S.susp), x) : x \in over} ELSE {}
